@@ -323,8 +323,13 @@ def finding_matches(fd, prop, ev, fmts):
         f = fmts[ev.get("fmt", 0)] if isinstance(ev.get("fmt"), int) and ev.get("fmt") < len(fmts) else {}
         if tag not in f.get("tags", []):
             return False
-    for k, sub in m.get("why_contains", {}).items():
-        pass
+    if m.get("in_letters_only"):
+        b = ev.get("in")
+        if not isinstance(b, list) or not b:
+            return False
+        body = b[1:] if b[0] in (43, 45) else b
+        if not body or not all((65 <= c <= 90) or (97 <= c <= 122) for c in body):
+            return False
     return True
 
 
